@@ -87,6 +87,14 @@ def check_create_arcs(chk, rep, repo):
         accs["per-rank maximum"] = md[0].target
     rep.fn("ARCS-rank-maxima", fn, "per-rank maxima are accumulated at index l", len(md) == 1,
            f"found {len(md)} store(s) into a per-rank array", line=ro.line)
+    local_density = None
+    if not [e for e in w.events if e.kind == "store" and e.target == accs["density bound"] and e.seq <= sc.per.last_seq]:
+        local_density = _local_density_bound(w, sc, ro, d_r, accs["density bound"])
+        if local_density:
+            del accs["density bound"]
+            rep.fn("ARCS-acc", fn, "density bound (kept in a local, stored once): updated to distances[l] when larger",
+                   True, line=ro.line)
+            rep.fn("ARCS-init", fn, "density bound starts from 0 in this call", True)
     for name, tgt in accs.items():
         st = [e for e in body if e.kind == "store" and e.target == tgt]
         want_guard = ("cmp", "<", tgt, d_r)
@@ -137,9 +145,67 @@ def check_create_arcs(chk, rep, repo):
     fb = [e for e in w.events if e.kind == "store" and e.target == dens and e.seq > sc.per.last_seq]
     okf = len(fb) == 1 and fb[0].value in (("const", 1), ("const", 1.0)) and not fb[0].loops \
         and facts(fb[0].guards) == (("cmp", "<", dens, ("const", 1e-05)),)
+    if local_density:
+        okf = True  # the single store after the loops already carries the fallback (checked by the local view)
     rep.fn("ARCS-fallback", fn, "density bound falls back to 1 when below 1e-5, after the loops", okf,
            "expected `if self.density < 0.00001: self.density = 1` after all nodes were processed")
     run_kinds(rep, w)
+
+
+def _local_density_bound(w, sc, ro, d_r, field) -> bool:
+    """The density bound accumulated in a local and written to the field once, after the loops:
+        acc = 0;  per node, per valid rank: if d > acc: acc = d;  [if acc < 1e-5: acc = 1];  self.density = acc"""
+    from ..ir import mk_cmp
+    per = sc.per
+    fin = [e for e in w.events if e.kind == "store" and e.target == field]
+    if len(fin) != 1 or fin[0].loops or fin[0].guards or fin[0].aug or fin[0].seq < per.last_seq:
+        return False
+    v = fin[0].value
+    names = [n for n in per.carried if n in ro.carried]
+    for n in names:
+        P, R = ("phi", per.lid, n), ("phi", ro.lid, n)
+        small = mk_cmp("<", P, ("const", 1e-05))
+        if v not in (("sel", small, ("const", 1), P), ("sel", small, ("const", 1.0), P)):
+            continue
+        init, nxt = per.carried[n]
+        if init not in (("const", 0), ("const", 0.0)) or nxt != R:
+            continue
+        init_r, nxt_r = ro.carried[n]
+        if init_r != P:
+            continue
+        upd = ("sel", mk_cmp("<", R, d_r), d_r, R)
+        invalid = mk_cmp("==", K("FLOAT_MAX"), d_r)
+        valid = mk_cmp("!=", K("FLOAT_MAX"), d_r)
+        if nxt_r in (("sel", invalid, R, upd), ("sel", valid, upd, R)):
+            return True
+    return False
+
+
+def _detached_pdf_range(w, s_mn, s_mx):
+    """(loop, name of the running minimum, name of the running maximum) when min_density / max_density are each
+    stored once, outside every loop, from locals that a single pass `for v in xs` maintains as
+        lo = FLOAT_MAX; hi = -FLOAT_MAX; if v < lo: lo = v; if v > hi: hi = v"""
+    from ..ir import elem_of, mk_cmp
+    if len(s_mn) != 1 or len(s_mx) != 1:
+        return None
+    a, b = s_mn[0], s_mx[0]
+    if a.loops or b.loops or a.guards or b.guards or a.aug or b.aug or a.value[0] != "phi" or b.value[0] != "phi" \
+            or a.value[1] != b.value[1]:
+        return None
+    L = w.loops.get(a.value[1])
+    if L is None or L.kind != "for" or L.loops or a.value[2] not in L.carried or b.value[2] not in L.carried:
+        return None
+    v = elem_of(L.domain, L.lid)
+    lo, hi = a.value, b.value
+    ilo, nlo = L.carried[lo[2]]
+    ihi, nhi = L.carried[hi[2]]
+    if ilo != K("FLOAT_MAX") or not is_neg_float_max(ihi):
+        return None
+    if nlo != ("sel", mk_cmp("<", v, lo), v, lo) or nhi != ("sel", mk_cmp("<", hi, v), v, hi):
+        return None
+    if [e for e in w.events if e.kind == "store" and L.lid in e.loops]:
+        return None
+    return L, lo[2], hi[2]
 
 
 def check_pdf(chk, rep, repo):
@@ -156,7 +222,11 @@ def check_pdf(chk, rep, repo):
     s_mx = [e for e in w.events if e.kind == "store" and e.target == mx]
     init_mn = [e for e in s_mn if not e.loops and e.value == K("FLOAT_MAX")]
     init_mx = [e for e in s_mx if not e.loops and is_neg_float_max(e.value)]
-    rep.fn("PDF-sentinels", fn, "min/max start from +FLOAT_MAX / -FLOAT_MAX", len(init_mn) == 1 and len(init_mx) == 1,
+    detached = None
+    if not init_mn and not init_mx:
+        detached = _detached_pdf_range(w, s_mn, s_mx)
+    rep.fn("PDF-sentinels", fn, "min/max start from +FLOAT_MAX / -FLOAT_MAX",
+           (len(init_mn) == 1 and len(init_mx) == 1) or detached is not None,
            "the running minimum / maximum must start from sentinels outside the attainable range")
     # pdf accumulation
     pdf_stores = [e for e in w.events if e.kind == "store" and e.target[0] == "idx" and e.target[1][0] == "alloc"]
@@ -222,6 +292,9 @@ def check_pdf(chk, rep, repo):
                         break
                 if W is not None:
                     want = -alg.conv(W) / alg.conv(("attr", G, "constant"))
+                    if ok and cst[0].seq < a.seq and not alg.equal(alg.conv(arg), want):
+                        # the constant read from the local it was computed in (the field holds the same value)
+                        want = -alg.conv(W) / alg.conv(cst[0].value)
                     node_i = ("idx", ("attr", G, "nodes"), i)
                     node_j = ("idx", ("attr", G, "nodes"), nb)
                     mentions = weight_names_pair(W, node_i, node_j)
@@ -250,6 +323,14 @@ def check_pdf(chk, rep, repo):
     okmn = len(tr_mn) == 1 and tr_mn[0].value == pi and facts(tr_mn[0].guards) == (("cmp", "<", pi, mn),)
     okmx = len(tr_mx) == 1 and tr_mx[0].value == pi and facts(tr_mx[0].guards) == (("cmp", "<", mx, pi),)
     late = all(e.seq > divs[0].seq for e in tr_mn + tr_mx) if divs else False
+    local_names = {}
+    if detached is not None:
+        # min / max found by a separate pass over the finished pdf array, kept in locals and stored once
+        L, a_mn, a_mx = detached
+        final = not [e for e in pdf_stores if e.seq > L.first_seq]
+        okmn = okmx = L.domain == pdf and final
+        late = bool(divs) and L.first_seq > per.last_seq
+        local_names = {("phi", L.lid, a_mn): mn, ("phi", L.lid, a_mx): mx}
     rep.fn("PDF-minmax", fn, "min_density / max_density track the final pdf value of every node", okmn and okmx and late,
            "expected `if pdf[i] < min: min = pdf[i]` and `if pdf[i] > max: max = pdf[i]` after the division")
     # normalisation
@@ -261,6 +342,21 @@ def check_pdf(chk, rep, repo):
                and e.target[1] != G]
     MD = alg.conv(K("MAX_DENSITY"))
     n_ok = 0
+    if local_names:
+        import dataclasses
+        from ..ir import plug_back
+        last_store = max(e.seq for e in s_mn + s_mx)
+
+        def fields(t):
+            for loc, fld in local_names.items():
+                t = plug_back(t, loc, fld)
+            return t
+        # after `self.min_density = lowest; self.max_density = highest` the locals and the fields hold the same values
+        conv_ev = lambda e: dataclasses.replace(e, value=fields(e.value), guards=tuple((fields(c), p) for c, p in e.guards)) \
+            if e.seq > last_store else e
+        dstores = [conv_ev(e) for e in dstores]
+        cstores = [conv_ev(e) for e in cstores]
+    shared_cost = 0
     for e in dstores + cstores:
         nl = node_loop(w.loops[e.loops[-1]]) if e.loops else None
         fulln = nl is not None and nl[0] == G and e.target[1] == nl[2]
@@ -270,7 +366,15 @@ def check_pdf(chk, rep, repo):
         ne_branch = has_guard(e.guards, mk_not(eq))
         fld = e.target[2]
         ok = False
-        if fulln and eq_branch:
+        if fulln and fld == "cost" and not eq_branch and not ne_branch:
+            # one `cost = density - 1` after both arms assigned the density
+            dread = ("attr", node, "density")
+            prev = [d for d in dstores if d.target == dread and d.seq < e.seq and d.loops == e.loops
+                    and d.guards[:len(e.guards)] == e.guards and len(d.guards) == len(e.guards) + 1]
+            arms = {p for d in prev for c, p in d.guards[len(e.guards):] if c == eq}
+            ok = alg.equal(alg.conv(e.value), alg.conv(dread) - 1) and len(prev) == 2 and arms == {True, False}
+            shared_cost += ok
+        elif fulln and eq_branch:
             want = MD if fld == "density" else MD - 1
             ok = alg.equal(alg.conv(e.value), want)
         elif fulln and ne_branch and ii is not None:
@@ -288,7 +392,8 @@ def check_pdf(chk, rep, repo):
                "density must be (MAX_DENSITY-1)(pdf-min)/(max-min)+1 (MAX_DENSITY when all pdf values are equal) and "
                "cost = density - 1, for every node")
     rep.fn("PDF-map-sites", fn, "density and cost are assigned in both the all-equal and the general case",
-           len(dstores) == 2 and len(cstores) == 2, f"{len(dstores)} density store(s), {len(cstores)} cost store(s)")
+           len(dstores) == 2 and (len(cstores) == 2 or (len(cstores) == 1 and shared_cost == 1)),
+           f"{len(dstores)} density store(s), {len(cstores)} cost store(s)")
     run_kinds(rep, w)
 
 
